@@ -118,7 +118,17 @@ def declare(reg):
                               'fields': {'line_cache': 'arrlist[PosLine]', 'line_index': 'arrlist[LineIndexInfo]',
                                          'textstr': 'str', 'len': 'int', 'source': 'Val'}}  # len, source: properties read as fields
     reg.classes['LCursor2'] = {'mro': ['tatsu/input/textlines.py:TextLinesCursor'], 'fields': {'pos': 'int', '_input': 'LInput2'},
-                               'wf': ['0 <= self.pos', 'self.pos <= self._input.len', 'len(self._input.textstr) == self._input.len']}
+                               'wf': ['0 <= self.pos', 'self.pos <= self._input.len']}
+    # the legacy Buffer twins of lineinfo(): the cursor's view of its buffer, and the buffer's own copy of the function
+    reg.classes['BufInput2'] = {'mro': ['tatsu/input/buffer.py:Buffer'],
+                                'fields': {'linecache': 'arrlist[PosLine]', 'lineindex': 'arrlist[LineIndexInfo]',
+                                           'text': 'str', 'len': 'int', 'source': 'Val'}}  # source: property read as a field
+    reg.classes['BufCursor2'] = {'mro': ['tatsu/input/buffer.py:BufferCursor'], 'fields': {'pos': 'int', 'buffer': 'BufInput2'},
+                                 'wf': ['0 <= self.pos', 'self.pos <= self.buffer.len']}
+    reg.classes['BufOwn2'] = {'mro': ['tatsu/input/buffer.py:Buffer'],
+                              'fields': {'linecache': 'arrlist[PosLine]', 'lineindex': 'arrlist[LineIndexInfo]',
+                                         'text': 'str', 'len': 'int', 'source': 'Val', 'pos': 'int'},
+                              'wf': ['0 <= self.pos', 'self.pos <= self.len']}
     reg.classes['LineInfo'] = {'mro': ['tatsu/input/infos.py:LineInfo'], 'isa': ['LineInfo']}
     reg.classes['LineIndexInfo'] = {'mro': ['tatsu/input/infos.py:LineIndexInfo'], 'isa': ['LineIndexInfo']}
     reg.classes['Cursor'] = {
@@ -188,5 +198,29 @@ def _ghosts_lineinfo(args):
     return {'starts': starts, 'lineof': lineof, 'nl': len(inp.lines), 'terminated': inp.textstr[-1:] in ('\r', '\n')}
 
 
-BUILDERS = {'ACursor': _build_acursor, 'LCursor2': _build_lcursor2,
-            'ghosts:tatsu/input/textlines.py:TextLinesCursor.lineinfo': _ghosts_lineinfo}
+def _build_bufcursor2(f):
+    from tatsu.input.buffer import Buffer
+    c = Buffer(f['buffer'][2]['text']).newcursor()
+    c.pos = f['pos']
+    return c
+
+
+def _build_bufown2(f):
+    from tatsu.input.buffer import Buffer
+    b = Buffer(f['text'])
+    b.goto(f['pos'])
+    return b
+
+
+def _ghosts_from_lines(lines, text):
+    starts = [0]
+    for ln in lines:
+        starts.append(starts[-1] + len(ln))
+    return {'starts': starts, 'lineof': [k for k, ln in enumerate(lines) for _ in ln], 'nl': len(lines),
+            'terminated': text[-1:] in ('\r', '\n')}
+
+
+BUILDERS = {'ACursor': _build_acursor, 'LCursor2': _build_lcursor2, 'BufCursor2': _build_bufcursor2, 'BufOwn2': _build_bufown2,
+            'ghosts:tatsu/input/textlines.py:TextLinesCursor.lineinfo': _ghosts_lineinfo,
+            'ghosts:tatsu/input/buffer.py:BufferCursor.lineinfo': lambda a: _ghosts_from_lines(a['self'].buffer.text.splitlines(True), a['self'].buffer.text),
+            'ghosts:tatsu/input/buffer.py:Buffer.lineinfo': lambda a: _ghosts_from_lines(a['self'].text.splitlines(True), a['self'].text)}
